@@ -252,11 +252,12 @@ def run(rep, tier, rng):
         idx = rr.below(nl)
         newv = [rr.below(P) for _ in range(4)]
         for op in ("get", "verify", "set"):
-            for mode in ("honest", "badpath", "badnode"):
+            for mode in ("honest", "badpath", "badnode", "wrapindex", "wrapindex2"):
                 if op == "verify" and mode == "badnode":
                     mode = "badindex"
-                mc.append("%s %d %s | %s | %s" % (op, idx, mode, " ".join(map(str, newv)), " ".join(map(str, leaves))))
-                mm.append((op, mode, idx, leaves, newv))
+                ix = 0 if (mode == "wrapindex" and rr.chance(1, 2)) else idx     # 0: the boundary value 2^depth itself
+                mc.append("%s %d %s | %s | %s" % (op, ix, mode, " ".join(map(str, newv)), " ".join(map(str, leaves))))
+                mm.append((op, mode, ix, leaves, newv))
     for (op, mode, idx, leaves, newv), c, x in zip(mm, mc, common.run_impl("mtree", mc, tag="c09m")):
         dist["mtree:%s:%s:%s" % (op, mode, x.split()[0])] += 1
         leaf = list(reversed(leaves[4 * idx:4 * idx + 4]))
